@@ -703,7 +703,7 @@ def run(ck, build, only_c04=False):
         snap_ = ck.snapshot()
         try:
             for ks_ in ("128", "192", "256"):
-                small_(ckd, mod, ks_, label, {"SMALLRT": "R-C03-DUAL"}, maxlen=(160 if ck.tier == "thorough" else 80))
+                small_(ckd, mod, ks_, label, {"SMALLRT": "R-C03-DUAL"}, maxlen=(288 if ck.tier == "thorough" else 80))
         except Broken as e:
             ck.rollback(snap_)
             ck.note("relational small-length rule (%s) not decided: %s" % (kind_, str(e)[:160]))
